@@ -603,7 +603,7 @@ class MultiSetup_PreGER(BaseSetup, GeometryMixin):
         Ndats = []
         Ts = []
         for data in self.datasets:
-            newdata, _, _, Ndat, T = super()._decimate_data(
+            newdata, _, dt, Ndat, _ = super()._decimate_data(
                 data=data,
                 fs=self.fs,
                 q=q,
@@ -615,7 +615,7 @@ class MultiSetup_PreGER(BaseSetup, GeometryMixin):
             )
             newdatasets.append(newdata)
             Ndats.append(Ndat)
-            Ts.append(T)
+            Ts.append(dt * Ndat)
 
         Y = pre_multisetup(newdatasets, self.ref_ind)
         fs = self.fs / q
